@@ -43,7 +43,8 @@ def fns(names, clause=FUNCTIONAL):
 PROPS = {
     "C01": {
         "fns": fns(STREAM + [F + "_check_arg_data", F + "_mktmpfile", F + "_find_object"])
-        + fns(OBJ_CORE, FUNCTIONAL + r"|loop-fold/.*|call:.*")
+        + fns([f for f in OBJ_CORE if "_verify_object_information" not in f],
+              FUNCTIONAL + r"|loop-fold/.*|call:.*")
         + fns([F + "store_object", F + "retrieve_object"]) + fns(PATHS),
         "extra": [r"stream/.*"],
         "lemmas": ["C01/store-then-retrieve"] + ["frame/" + o for o in (
@@ -86,7 +87,8 @@ PROPS = {
                          r"objects-and-references-untouched|object-bytes-kept)"],
     },
     "C05": {
-        "fns": fns(PUBLIC_OBJ + PUBLIC_META + REFS_CORE + OBJ_CORE + META_CORE + REF_HELPERS,
+        "fns": fns(PUBLIC_OBJ + PUBLIC_META + REFS_CORE + META_CORE + REF_HELPERS
+                   + [f for f in OBJ_CORE if "_verify_object_information" not in f],
                    r"post/(outcome|fs)|loop-foreach/.*"),
         "extra": [r"refs/line-is-wsfree"],
         "lemmas": ["inv/store_object", "inv/tag_object", "inv/delete_object",
